@@ -45,11 +45,37 @@ def abstract(pc, goal, names, congruence=True):
     if not apps:
         return None
     mapping, table, canon = [], {}, {}
+    # union-find over (simplified) terms related by TOP-LEVEL equalities of the hypotheses: arguments that such an
+    # equation identifies get the same constant (congruence closure restricted to facts that are literally there)
+    parent, keep = {}, []
+
+    def find(i):
+        while parent.get(i, i) != i:
+            parent[i] = parent.get(parent[i], parent[i])
+            i = parent[i]
+        return i
+
+    def top_eqs(z):
+        if z3.is_and(z):
+            for ch in z.children():
+                yield from top_eqs(ch)
+        elif z3.is_eq(z) and not z3.is_bool(z.arg(0)):
+            yield z
+
+    for z in pc:
+        for e in top_eqs(z):
+            l, r = z3.simplify(e.arg(0)), z3.simplify(e.arg(1))
+            keep.extend((l, r))
+            a_, b_ = find(l.get_id()), find(r.get_id())
+            if a_ != b_:
+                parent[a_] = b_
     for n, t in enumerate(apps):
         args = [z3.substitute(a, *mapping) if mapping else a for a in t.children()]
         # applications whose arguments are equal after simplification (idx - 0 vs idx, select-over-store, ...) share
         # one constant: most functional-consistency instances then hold syntactically
-        ck = (t.decl().name(),) + tuple(z3.simplify(a).get_id() for a in args)
+        sargs = [z3.simplify(a) for a in args]
+        keep.extend(sargs)
+        ck = (t.decl().name(),) + tuple(find(a.get_id()) for a in sargs)
         hit = canon.get(ck)
         if hit is not None:
             mapping.append((t, hit[0]))
